@@ -161,7 +161,7 @@ def strToManExpCore (x : List Char) (limit : Nat) : Except Err (Int × Int) :=
 
 /-- `str_to_man_exp(x, base=10)` -/
 def strToManExp (x : List Char) (limit : Nat := 4300) : Except Err (Int × Int) :=
-  let x := rstripL (· == 'l') (x.map lowerC)
+  let x := stripL isSpaceStrip (rstripL (· == 'l') (x.map lowerC))
   if !floatOK x then .error .value else
   strToManExpCore (x.filter (· != '_')) limit
 
